@@ -265,3 +265,34 @@ func zeroOf(s *Sort) Term {
 	}
 	panic("zeroOf " + s.String())
 }
+
+// smtLiteral decodes a string literal term built by StrT.
+func smtLiteral(t Term) (string, bool) {
+	x := t.S
+	if t.Sort != SStr || len(x) < 2 || x[0] != '"' || x[len(x)-1] != '"' {
+		return "", false
+	}
+	x = x[1 : len(x)-1]
+	var b strings.Builder
+	for i := 0; i < len(x); i++ {
+		switch {
+		case x[i] == '"' && i+1 < len(x) && x[i+1] == '"':
+			b.WriteByte('"')
+			i++
+		case strings.HasPrefix(x[i:], `\u{`):
+			j := strings.IndexByte(x[i:], '}')
+			if j < 0 {
+				return "", false
+			}
+			var r rune
+			if _, err := fmt.Sscanf(x[i+3:i+j], "%x", &r); err != nil {
+				return "", false
+			}
+			b.WriteRune(r)
+			i += j
+		default:
+			b.WriteByte(x[i])
+		}
+	}
+	return b.String(), true
+}
